@@ -85,6 +85,29 @@ func scenarioC18(c *Ctx) {
 			}})
 		}
 	}
+	// a signing batch cancelled by failures: the next message finds the round in a cancelled state
+	h2 := append([]Item{}, h...)
+	tasksB := w.Tasks("batch-B")
+	h2 = append(h2, w.Msg(round, "event_signing_start", requests.SigningBatchProposalStartRequest{BatchID: "batch-B", ParticipantId: 0, CreatedAt: T(300), SigningTasks: tasksB}, w.Users[0], "", w.Users[0], NOWMARK, "start-B"))
+	for _, i := range []int{1, 2} {
+		h2 = append(h2, w.Msg(round, "event_signing_partial_sign_error_received", requests.SignatureProposalConfirmationErrorRequest{Error: requests.NewFSMError(fmt.Errorf("cannot sign")), ParticipantId: i, CreatedAt: T(310)}, w.Users[i], "", w.Users[i], NOWMARK, "sign-error"))
+	}
+	for _, j := range junkAt(w, round, NOWMARK, false) {
+		items := append(append([]Item{}, h2...), j)
+		label := j.Label
+		cases = append(cases, HistCase{Kind: "junk-after-cancel-" + label, User: me, Items: items, PrefixKey: round + "/cancelled", Check: func(o RunObs) {
+			last := o.Classes[len(o.Classes)-1]
+			if last == "panic" {
+				c.Fail(Failure{Property: "C18", Kind: "node-panic", Signature: map[string]interface{}{"kind": "node-panic", "input": label},
+					What: "a board message crashes the node: " + label, Replay: map[string]interface{}{"position": "after a cancelled batch", "input": label}})
+			}
+			if last == "err" && o.Before != o.After {
+				c.Fail(Failure{Property: "C18", Kind: "lazy-restart-on-rejected-message", Signature: map[string]interface{}{"kind": "lazy-restart-on-rejected-message"},
+					What:   "a rejected board message that finds the signing round in a cancelled state makes the node persist the restart to idle before it refuses the message",
+					Replay: map[string]interface{}{"position": "after a batch cancelled by failures", "input": label}})
+			}
+		}})
+	}
 	runCases(c, cases)
 	c.Notes["histories"] = len(cases)
 }
